@@ -116,10 +116,19 @@ func (n *QuoteExpressionNode) String() string {
 	switch n.Kind {
 	case QUOTE_EXPRESSION_KIND:
 		buff.WriteString("quote\n")
-	case QUOTE_TYPE_KIND:
-		buff.WriteString("quote_type\n")
-	case QUOTE_PATTERN_KIND:
-		buff.WriteString("quote_pattern\n")
+	case QUOTE_TYPE_KIND, QUOTE_PATTERN_KIND:
+		// `quote_type` and `quote_pattern` take a single type / pattern
+		// and are not terminated with `end`
+		if n.Kind == QUOTE_TYPE_KIND {
+			buff.WriteString("quote_type")
+		} else {
+			buff.WriteString("quote_pattern")
+		}
+		for _, stmt := range n.Body {
+			buff.WriteRune(' ')
+			buff.WriteString(stmt.String())
+		}
+		return buff.String()
 	}
 
 	for _, stmt := range n.Body {
